@@ -1,4 +1,4 @@
-From Verif Require Import Lib.Base Roothash.Pool Roothash.PoolSpec Roothash.PoolProofs.
+From Verif Require Import Lib.Base Roothash.Pool Roothash.PoolSpec Roothash.PoolProofs Roothash.PoolInv.
 
 Theorem finalize_only_if_rule :
   forall (c : committee) (p : pool) (strag : N) (timeout : bool) (p' : pool) (sc : sched_commitment),
@@ -70,3 +70,40 @@ Theorem second_process_never_detects :
     disc p = true -> snd (process c p strag timeout) <> PDiscrepancy.
 Proof. exact second_process_never_detects. Qed.
 Print Assumptions second_process_never_detects.
+
+(* ---- lifted to every history of verified commitments and processing calls ---- *)
+
+Theorem finalize_only_if_rule_history :
+  forall (c : committee) (R : N) (ops : list op) (strag : N) (timeout : bool) (p' : pool) (sc : sched_commitment),
+    R + N.of_nat (length c) < W64 ->
+    Forall (verified_op R) ops ->
+    process c (run c ops new_pool) strag timeout = (p', POk sc) ->
+    (disc (run c ops new_pool) = false /\ unanimity c strag sc) \/
+    (disc (run c ops new_pool) = true /\ backup_majority c sc).
+Proof. exact finalize_only_if_rule_history. Qed.
+Print Assumptions finalize_only_if_rule_history.
+
+Theorem reachable_invariant :
+  forall (c : committee) (R : N) (ops : list op) (p : pool),
+    small c -> rank_inj c R -> Forall (verified_op R) ops -> inv c R p -> inv c R (run c ops p).
+Proof. exact inv_run. Qed.
+Print Assumptions reachable_invariant.
+
+Theorem rank_inj_unless_wraparound :
+  forall (c : committee) (R : N), R + N.of_nat (length c) <= W64 -> rank_inj c R.
+Proof. exact rank_inj_no_wrap. Qed.
+Print Assumptions rank_inj_unless_wraparound.
+
+Theorem no_nil_commitment_dereference_history :
+  forall (c : committee) (R : N) (ops : list op) (strag : N) (timeout : bool),
+    small c -> rank_inj c R -> Forall (verified_op R) ops ->
+    snd (process c (run c ops new_pool) strag timeout) <> PPanic.
+Proof. exact no_panic_reachable. Qed.
+Print Assumptions no_nil_commitment_dereference_history.
+
+Theorem rank_priority_no_worse_entry_history :
+  forall (c : committee) (R : N) (ops : list op) (r : N) (sc : sched_commitment),
+    small c -> rank_inj c R -> Forall (verified_op R) ops ->
+    aget r (scs (run c ops new_pool)) = Some sc -> r <= hr (run c ops new_pool).
+Proof. exact no_worse_reachable. Qed.
+Print Assumptions rank_priority_no_worse_entry_history.
